@@ -10,8 +10,8 @@
    ...; quiet a l = no enter/exit/reenter in l and every view shows a active. *)
 From Coq Require Import List Arith Bool NArith.
 From FFSM2 Require Import Model.TaskList Model.BitArray Model.BitStream Model.Plan Model.Ancestors Model.Machine
-  Proofs.BitArrayProofs Proofs.MachineFrame Proofs.MachinePlan Proofs.MachineLife Proofs.GuardProofs Proofs.CycleProofs Proofs.PlanStep
-  Proofs.SerialProofs Proofs.LogProofs Proofs.MachineTop Model.Multi Generated.InitFacts Proofs.ConstructProofs Proofs.LifeMonitor Proofs.ActivationRounds Proofs.IndexSafety Proofs.FeatureProofs.
+  Proofs.BitArrayProofs Proofs.TaskListProofs Proofs.TaskListRun Proofs.PlanProofs Proofs.MachineFrame Proofs.MachinePlan Proofs.MachineLife Proofs.GuardProofs Proofs.CycleProofs Proofs.PlanStep
+  Proofs.SerialProofs Proofs.LogProofs Proofs.MachineTop Model.Multi Generated.InitFacts Proofs.ConstructProofs Proofs.LifeMonitor Proofs.ActivationRounds Proofs.IndexSafety Proofs.FeatureProofs Model.Script Proofs.Contract Proofs.Histories.
 Import ListNotations.
 
 (* what one processing step does, for every reachable state, every callback behaviour, every n and limit: the active
@@ -144,4 +144,72 @@ Theorem C02_survivor_is_a_round_that_passed :
            r_deduped P r = false /\ Forall (fun r' : round P => survives P r' = false) l2.
 Proof. exact (applied_passed_guards). Qed.
 Print Assumptions C02_survivor_is_a_round_that_passed.
+
+(* wherever an in-contract history from construction is cut, the state before the next call satisfies the invariant, is
+   Ready when the machine is active, and the call is one step of the model - so every per-call statement of this file
+   applies to every call of every history *)
+Theorem C02_cut_any_history_anywhere :
+  forall (P : Type) (cfg : config) (orc : oracle P),
+         wf_cfg cfg ->
+         wf_oracle P cfg orc ->
+         forall (lg : bool) (pre : list (api_op P)) (op : api_op P) (post : list (api_op P)),
+         ops_ok P cfg orc (construct P cfg orc lg) (pre ++ op :: post) ->
+         let s := run P cfg orc lg pre in
+         Inv P cfg s /\
+         in_contract P cfg s op /\
+         (is_on P cfg s -> Ready P cfg s (active P (co P s))) /\
+         run P cfg orc lg (pre ++ [op]) = fst (step P cfg orc s op) /\
+         ops_ok P cfg orc (construct P cfg orc lg) pre.
+Proof. exact (at_every_call). Qed.
+Print Assumptions C02_cut_any_history_anywhere.
+
+(* every changeTo()/changeWith() made from outside, at any point of any history: active state, plan and previous
+   transition are unchanged, the request is stored, at most one log record and no callback *)
+Theorem C02_every_external_request_of_every_history :
+  forall (P : Type) (cfg : config) (orc : oracle P),
+         wf_cfg cfg ->
+         wf_oracle P cfg orc ->
+         forall (lg : bool) (pre : list (api_op P)) (d : nat) (p : option P) (post : list (api_op P)),
+         let op := match p with
+                   | Some x => OChangeWith P d x
+                   | None => OChange P d
+                   end in
+         ops_ok P cfg orc (construct P cfg orc lg) (pre ++ op :: post) ->
+         let s := run P cfg orc lg pre in
+         let s' := run P cfg orc lg (pre ++ [op]) in
+         active P (co P s') = active P (co P s) /\
+         plan P (co P s') = plan P (co P s) /\
+         previous P (co P s') = previous P (co P s) /\
+         request P (co P s') = {| t_origin := INVALID; t_dest := d; t_pay := p |} /\
+         (exists l : list (event P), tr P s' = l ++ tr P s /\ length l <= 1 /\ Forall (GuardProofs.is_log P) l).
+Proof. exact (every_change_of_every_history). Qed.
+Print Assumptions C02_every_external_request_of_every_history.
+
+(* every immediateChangeTo()/immediateChangeWith(), at any point of any history: at most SUBSTITUTION_LIMIT guard
+   rounds, and the active state afterwards is the last survivor's destination, or unchanged when nothing survived *)
+Theorem C02_every_immediate_change_of_every_history :
+  forall (P : Type) (cfg : config) (orc : oracle P),
+         wf_cfg cfg ->
+         wf_oracle P cfg orc ->
+         forall (lg : bool) (pre : list (api_op P)) (d : nat) (p : option P) (post : list (api_op P)),
+         let op := match p with
+                   | Some x => OImmChangeWith P d x
+                   | None => OImmChange P d
+                   end in
+         ops_ok P cfg orc (construct P cfg orc lg) (pre ++ op :: post) ->
+         let s := run P cfg orc lg pre in
+         let a := active P (co P s) in
+         let s0 := change_to P cfg d p s in
+         let rounds := loop_rounds P cfg orc (c_limit cfg) (t_empty P) s0 in
+         let surv := last_survivor P rounds in
+         let s' := run P cfg orc lg (pre ++ [op]) in
+         a < c_n cfg /\
+         d < c_n cfg /\
+         length rounds <= c_limit cfg /\
+         Inv P cfg s' /\
+         (if t_valid P surv
+          then active P (co P s') = t_dest P surv /\ t_dest P surv < c_n cfg
+          else active P (co P s') = a).
+Proof. exact (every_immediate_change_of_every_history). Qed.
+Print Assumptions C02_every_immediate_change_of_every_history.
 
